@@ -27,8 +27,8 @@ P("C02",
   technique="model-based PBT: exhaustive no-plugin grid + rapid plugin scenarios against a decision table written from the statement; metamorphic monotonicity (strict=>permissive=>audit) and action-tagging relations; call-log invariants of scripted collaborators",
   level_text="Exploration with an exhaustively enumerated core (all 24 enforcement maps x trust x identity x expiry x certificate-time x revocation situations without plugin) plus sampled plugin scenarios; the model restates the statement, the relations are model-independent.",
   level_note="Trusts the scripted trust store / revocation / plugin mocks and the harness's envelope builders; margins of >= 30 min around the wall clock.",
-  health={"accept": 50, "reject": 50, "plugin": 50, "crit=unprocessed": 5, "crit=processed": 5, "rev=skip": 10, "logged-failure": 20},
-  assumptions=["non-critical extended attributes and a non-critical plugin-name attribute are outside the statement and not generated"])
+  health={"accept": 50, "reject": 50, "plugin": 50, "crit=unprocessed": 5, "crit=processed": 5, "rev=skip": 10, "logged-failure": 20, "noncritical-attr-before": 20, "noncritical-attr-not-reported-by-plugin": 20},
+  assumptions=["non-critical extended attributes are generated only as incidental filler (they must never decide anything, reported by the plugin or not); a non-critical plugin-name attribute is outside the statement and not generated"])
 
 P("C03",
   technique="model-based PBT: generated placements of chain certificates into typed named stores x statement store lists; set-semantics oracle + call-log invariant of an instrumented trust store; scripted and real directory-backed stores; verifier instances reused across verifications",
